@@ -12,7 +12,7 @@ ALL = {
    note=EX+"Assumes no division by a zero scalar.",
    technique="property-based testing: exact-field differential oracle (Q, Fp) + algebraic laws", design="6/C01"),
  "C02": dict(
-   text="Exploration. determinant/invert/transpose/swap laws evaluated exactly over Q and Fp on generic matrices and on *constructed* singular (rank n-1 by column and by row combination), low-rank and tiny-determinant matrices; invert()==None is compared with the Leibniz determinant being exactly 0; swap/replace_col index pairs are enumerated completely per case; native f64/f32 matrices diag(2^a)*U with ordinary, subnormal, underflowed and huge determinants must invert exactly when determinant() != 0. Sampled search, not a proof; exact arithmetic means no tolerance can hide or invent a failure. Exactly singular float matrices (2x2, 3x3: one column an exact power-of-two multiple of another, generic inexact entries) must have determinant() == 0 and no inverse.",
+   text="Exploration. determinant/invert/transpose/swap laws evaluated exactly over Q and Fp on generic matrices and on *constructed* singular (rank n-1 by column and by row combination), low-rank and tiny-determinant matrices; invert()==None is compared with the Leibniz determinant being exactly 0; swap/replace_col index pairs are enumerated completely per case; native f64/f32 matrices diag(2^a)*U with ordinary, subnormal, underflowed and huge determinants must invert exactly when determinant() != 0. Sampled search, not a proof; exact arithmetic means no tolerance can hide or invent a failure. Exactly singular float matrices (2x2, 3x3: one column an exact power-of-two multiple of another, generic inexact entries) must have determinant() == 0 and no inverse. Rotations / diagonal matrices perturbed by 1e-14..1e-4 (invert_near_special-f64) must be inverted to rounding accuracy.",
    note=EX+"ulps-equality degenerates to equality in Q/Fp. Memory safety of the unchecked reads is only covered by the ASan fuzz build in the thorough tier.",
    technique="property-based testing: exact-field reference model (Leibniz determinant), constructed singular classes, exhaustive index enumeration", design="6/C02"),
  "C03": dict(
@@ -20,11 +20,11 @@ ALL = {
    note=EX+"Integer operands are constructed inside the no-overflow range; divisors non-zero.",
    technique="property-based testing: per-component reference + algebraic identities over exact fields and integers", design="6/C03"),
  "C04": dict(
-   text="Exploration. Hamilton product vs an independent 4x4 left-multiplication-matrix reference, ring laws, conjugate/norm/inverse laws and the rotation formula q*v for arbitrary and *exactly unit* (p^2/|p|^2) quaternions, all with == over Q and Fp (operands aliased now and then), plus an f64 sub-check of product and rotation against the reference on quaternions within rounding of +-1, tiny vector parts and wide magnitudes. Every operation is also taken through reference operands, +=, -=, *=, /=, %=, scalar on the left (f64), single/empty Sum and Product.",
+   text="Exploration. Hamilton product vs an independent 4x4 left-multiplication-matrix reference, ring laws, conjugate/norm/inverse laws and the rotation formula q*v for arbitrary and *exactly unit* (p^2/|p|^2) quaternions, all with == over Q and Fp (operands aliased now and then), plus an f64 sub-check of product and rotation against the reference on quaternions within rounding of +-1, tiny vector parts and wide magnitudes. Every operation is also taken through reference operands, +=, -=, *=, /=, %=, scalar on the left (f64), single/empty Sum and Product. Product/Sum over lists are compared bit for bit with the left folds on nearly-unit quaternions.",
    note=EX,
    technique="property-based testing: exact-field differential oracle + algebraic laws", design="6/C04"),
  "C05": dict(
-   text="Exploration. The four rotation representations are compared exactly over Q/Fp on exactly unit quaternions (action on a vector, element tables, orthonormality, det=+1, composition); matrix->quaternion is decided exactly in Q (all internal square roots are rational) and within 1e-12 in f64, with all four branches required to be reached, the trace=0 hand-over and near-identity rotations targeted. Composition is also written as Product over values and references (three non-commuting factors) for Basis3, Quaternion, Matrix3 and Matrix4, and through Into conversions.",
+   text="Exploration. The four rotation representations are compared exactly over Q/Fp on exactly unit quaternions (action on a vector, element tables, orthonormality, det=+1, composition); matrix->quaternion is decided exactly in Q (all internal square roots are rational) and within 1e-12 in f64, with all four branches required to be reached, the trace=0 hand-over and near-identity rotations targeted. Composition is also written as Product over values and references (three non-commuting factors) for Basis3, Quaternion, Matrix3 and Matrix4, and through Into conversions. The rotation is applied through every entry point (transform_vector/transform_point, rotate_vector/rotate_point, reference products).",
    note=EX+"Branch classes are recomputed from the input with the documented conditions.",
    technique="property-based testing: exact round-trip + differential oracle with branch-coverage classes", design="6/C05"),
  "C06": dict(
@@ -44,7 +44,7 @@ ALL = {
    note=EX+"libm is the trusted oracle for the transcendental clauses; poles avoided by 1e-3; bisect of numerically opposite angles accepts either bisector.",
    technique="property-based testing: exact modular-arithmetic oracle (Q) + raw-bit-pattern range search + libm differential", design="6/C13"),
  "C15": dict(
-   text="Exploration. between_vectors (Quaternion, Basis3, Basis2) and from_arc checked against the validity predicate of the statement (unit, maps a to b, rotation angle = angle(a,b), axis perpendicular, half turn for opposite vectors, fallback axis honoured, smaller angle) on f64 pairs in the classes generic / near-parallel / near-antiparallel (1e-12..1e-1 rad) / exactly equal / exactly opposite / non-unit pairs whose dot product is exactly 1 / generic directions with lengths 1e-6..1e70, and with == in Q on pairs b = 2(a.m)m - a for which every internal normalisation is rational. Opposite pairs include a within 1e-300..1e-6 of a coordinate axis.",
+   text="Exploration. between_vectors (Quaternion, Basis3, Basis2) and from_arc checked against the validity predicate of the statement (unit, maps a to b, rotation angle = angle(a,b), axis perpendicular, half turn for opposite vectors, fallback axis honoured, smaller angle) on f64 pairs in the classes generic / near-parallel / near-antiparallel (1e-12..1e-1 rad) / exactly equal / exactly opposite / non-unit pairs whose dot product is exactly 1 / generic directions with lengths 1e-6..1e70, and with == in Q on pairs b = 2(a.m)m - a for which every internal normalisation is rational. Opposite pairs include a within 1e-300..1e-6 of a coordinate axis. Opposite pairs with a fallback axis are also drawn at extreme unbalanced lengths (2^+-480).",
    note=EX+"Unit inputs for between_vectors; the 1e-7 / 1e-4 allowances of the statement are applied as stated, with a conditioning term 32 eps/theta* between the allowance and 1e-9.",
    technique="property-based testing: validity-predicate oracle with degenerate-class generators (f64) + exact rational geometry (Q)", design="6/C15"),
  "C11": dict(
@@ -52,7 +52,7 @@ ALL = {
    note=EX+"f64 components log-uniform in 1e-3..1e3 (no over/underflow of squares); non-zero lengths by construction.",
    technique="property-based testing: exact rational-length oracle + f64 validity predicates on conditioned pair classes", design="6/C11"),
  "C14": dict(
-   text="Exploration. lerp = a + (b-a)t decided exactly over Q and Fp for every VectorSpace implementation (Vector1-4, Quaternion, Matrix2-4). nlerp/slerp checked on f64 unit-quaternion pairs in the classes generic / nearly parallel / nearly opposite / on the 0.9995 hand-over (delta 1e-12..1e-2, both signs of the dot product) / orthogonal / equal / exactly opposite with t in {0,1} and U[0,1], against the statement's validity predicate: unit, in the plane of a and b', on the shorter arc, exact endpoints, slerp arc = t*Omega within 1e-9 (1e-5 above the hand-over). Structurally orthogonal pairs (disjoint supports, zeros of either sign) are a required class for which the statement's 'a.b >= 0' case is demanded exactly.",
+   text="Exploration. lerp = a + (b-a)t decided exactly over Q and Fp for every VectorSpace implementation (Vector1-4, Quaternion, Matrix2-4). nlerp/slerp checked on f64 unit-quaternion pairs in the classes generic / nearly parallel / nearly opposite / on the 0.9995 hand-over (delta 1e-12..1e-2, both signs of the dot product) / orthogonal / equal / exactly opposite with t in {0,1} and U[0,1], against the statement's validity predicate: unit, in the plane of a and b', on the shorter arc, exact endpoints, slerp arc = t*Omega within 1e-9 (1e-5 above the hand-over). Structurally orthogonal pairs (disjoint supports, zeros of either sign) are a required class for which the statement's 'a.b >= 0' case is demanded exactly. lerp is also checked in f64 (amounts up to 1e17, equal and nearly equal operands) and on integer vectors over the whole range (outcome: value or overflow panic).",
    note=EX+"The arc is measured as 2 atan2(|a-b'|,|a+b'|); the frame used for the in-plane test is known to eps/Omega, which is added to the tolerance; either target accepted when |a.b| <= 1e-12.",
    technique="property-based testing: exact-field oracle (lerp) + validity predicate with threshold-targeted generators (nlerp/slerp)", design="6/C14"),
  "C08": dict(
@@ -68,15 +68,15 @@ ALL = {
    note=EX+"Valid domain excludes l==r, b==t, n==f and height==0 (division by zero), and for perspective/planar planes closer than machine epsilon in absolute terms (the constructors' own 'too close' assertion).",
    technique="property-based testing: mapping-predicate oracle (exact Q + f64) and single-fault rejection enumeration", design="6/C10"),
  "C16": dict(
-   text="Exploration over a completely enumerated configuration space. Every view and conversion of Vector1-4, Point1-3, Matrix2-4 and Quaternion (arrays, tuples, references to both, flat column-major arrays, raw pointers, Index/IndexMut by usize and by every range, mint types incl. EulerAngles<_,IntraXYZ>, map/zip/from_value/extend/truncate/truncate_n/swap_elements, conv::array*) is exercised for every slot and every mutable view, with 12 element types (8 numeric, char, a Copy struct, &str, String where the impl has no numeric bound); out-of-range and inverted indices must panic; all 550 swizzle words are generated by the harness' own build script (counts asserted). Random tags per case guard against accidental agreement.",
+   text="Exploration over a completely enumerated configuration space. Every view and conversion of Vector1-4, Point1-3, Matrix2-4 and Quaternion (arrays, tuples, references to both, flat column-major arrays, raw pointers, Index/IndexMut by usize and by every range, mint types incl. EulerAngles<_,IntraXYZ>, map/zip/from_value/extend/truncate/truncate_n/swap_elements, conv::array*) is exercised for every slot and every mutable view, with 12 element types (8 numeric, char, a Copy struct, &str, String where the impl has no numeric bound); out-of-range and inverted indices must panic; all 550 swizzle words are generated by the harness' own build script (counts asserted). Random tags per case guard against accidental agreement. Matrix swap_elements/swap_rows/swap_columns/replace_col/row/indexing must panic for an index out of range in any single position.",
    note=EX+"Parametricity: routing is generic in the element type, so one all-distinct assignment per configuration decides it. Pointer views are dereferenced in bounds only; UB that does not manifest is not detected here (ASan fuzz build in the thorough tier).",
    technique="property-based testing: exhaustive configuration enumeration with generated tag values against index-table reference", design="6/C16"),
  "C17": dict(
-   text="Exploration. For every operator impl of vectors, points, matrices, quaternions, angles and bases: by-value, &rhs, &lhs, both-reference and compound-assignment forms must be bit-identical on generated operands (floats from raw bit patterns incl. +-0, subnormals, infinities, NaN identified; integers in the no-overflow range) for all 12 primitive scalars where the impl exists; scalar-on-the-left against the primitive operator per component (12 scalars x 10 compound types, f32/f64 x Quaternion); Sum/Product over values and references against the explicit left fold from zero()/one(); random straight-line programs run by a by-value interpreter and a mixed-form interpreter must end in identical register files. Integer operands are additionally drawn over their whole range (int_overflow-*): the outcome - value or overflow/division panic of the build - of every vector/point operator, in-place form and scalar-on-the-left form must equal that of the primitive operator per component.",
+   text="Exploration. For every operator impl of vectors, points, matrices, quaternions, angles and bases: by-value, &rhs, &lhs, both-reference and compound-assignment forms must be bit-identical on generated operands (floats from raw bit patterns incl. +-0, subnormals, infinities, NaN identified; integers in the no-overflow range) for all 12 primitive scalars where the impl exists; scalar-on-the-left against the primitive operator per component (12 scalars x 10 compound types, f32/f64 x Quaternion); Sum/Product over values and references against the explicit left fold from zero()/one(); random straight-line programs run by a by-value interpreter and a mixed-form interpreter must end in identical register files. Integer operands are additionally drawn over their whole range (int_overflow-*): the outcome - value or overflow/division panic of the build - of every vector/point operator, in-place form and scalar-on-the-left form must equal that of the primitive operator per component. Sum/Product over long lists (up to 600 items, lengths concentrated around 16..256) equal the left fold bit for bit (floats) and in outcome (integers).",
    note=EX+"Product/Sum spellings are compared with the fold from one()/zero(), which is what the statement promises (it differs from a bare binary op in the sign of zero).",
    technique="property-based testing: differential testing between operator spellings + model-based straight-line programs", design="6/C17"),
  "C18": dict(
-   text="Exploration over all component positions. For 20 compound types x {f32,f64}: abs_diff_eq/relative_eq/ulps_eq must equal the conjunction of the scalar relation over corresponding components, probed at every position with a partner just inside and just outside the tolerance (absolute, relative, exactly max_ulps / max_ulps+1 steps), plus multi-component perturbations, reflexivity, symmetry and macro-vs-explicit default tolerances; is_finite with NaN/+-inf at every position; is_zero / is_identity / is_diagonal / is_symmetric / is_invertible / is_perpendicular with one element moved just inside/outside the type's default tolerance. The negated relations (abs_diff_ne, relative_ne, ulps_ne; methods and macros) and the macro forms with explicit tolerances are compared with the _eq results.",
+   text="Exploration over all component positions. For 20 compound types x {f32,f64}: abs_diff_eq/relative_eq/ulps_eq must equal the conjunction of the scalar relation over corresponding components, probed at every position with a partner just inside and just outside the tolerance (absolute, relative, exactly max_ulps / max_ulps+1 steps), plus multi-component perturbations, reflexivity, symmetry and macro-vs-explicit default tolerances; is_finite with NaN/+-inf at every position; is_zero / is_identity / is_diagonal / is_symmetric / is_invertible / is_perpendicular with one element moved just inside/outside the type's default tolerance. The negated relations (abs_diff_ne, relative_ne, ulps_ne; methods and macros) and the macro forms with explicit tolerances are compared with the _eq results. Matrix predicates are also evaluated on tiny, huge and determinant-overflowing entries.",
    note="Trusted: the scalar approx impls for f32/f64. The matrix types' own default epsilon (1e-6) is used where the statement says 'ulps-comparison of the matrix'. Basis2/3 values are built through their Deserialize impl.",
    technique="property-based testing: per-position boundary probes against scalar-relation conjunction oracle", design="6/C18"),
  "C19": dict(
